@@ -30,6 +30,8 @@ func argExprs() []Expr {
 		Lit{V: BoolV(true)},
 		Filtered{E: v("lst"), Filters: []FilterCall{{Name: "length"}}},
 		Bin{Op: "+", L: v("n"), R: Lit{V: IntV(1)}},
+		v("ptainted"), // the same behind a pointer / as a named string type: text like any other
+		v("ntainted"),
 	}
 }
 
@@ -133,7 +135,7 @@ func head40(s string) string {
 
 func run(r *eng.Runner) {
 	// the context also holds entries named like the parameters: an omitted parameter must not fall through to them
-	ctx := map[string]V{"tainted": StrV("<&>"), "lst": ListV(IntV(1), IntV(2)), "n": IntV(4), "dflt": StrV("cd"),
+	ctx := map[string]V{"tainted": StrV("<&>"), "ptainted": StrVia("<p&>", "ptr"), "ntainted": StrVia("<n&>", "ptrnamed"), "lst": ListV(IntV(1), IntV(2)), "n": IntV(4), "dflt": StrV("cd"),
 		"p": StrV("ctx-p"), "q": StrV("ctx-q"), "r": StrV("ctx-r"), "s": StrV("ctx-s")}
 	ctx2 := prog.Vary(ctx) // every compiled program is executed a second time with this context
 	maxP := 3
@@ -141,7 +143,7 @@ func run(r *eng.Runner) {
 		maxP = 4
 	}
 	args := argExprs()
-	r.Group("binding", "prog.case", fmt.Sprintf("signatures with 0..%d parameters x every subset with defaults x calls with 0..n+1 arguments of 7 kinds x {local, imported, imported under alias, local with same-named set variables}; body holds literal markup and prints every parameter", maxP))
+	r.Group("binding", "prog.case", fmt.Sprintf("signatures with 0..%d parameters x every subset with defaults x calls with 0..n+1 arguments of 9 kinds (also text behind a pointer and of a named string type) x {local, imported, imported under alias, local with same-named set variables}; body holds literal markup and prints every parameter", maxP))
 	pnames := []string{"p", "q", "r", "s"}
 	for np := 0; np <= maxP; np++ {
 		for dmask := 0; dmask < 1<<np; dmask++ {
@@ -258,7 +260,7 @@ func run(r *eng.Runner) {
 	// markup is not escaped again / tainted escaped once, also when the result travels through set and with
 	r.Group("markup", "prog.case", "the result of a macro call is markup: printed, stored with set/with and printed, concatenated; a tainted argument is escaped exactly once")
 	m := Macro{Name: "mac", Params: []Param{{Name: "p"}}, Body: []Node{T("<b>"), O(v("p")), T("</b>")}}
-	for _, a := range []Expr{v("tainted"), lits("<lit>"), Lit{V: IntV(1)}} {
+	for _, a := range []Expr{v("tainted"), lits("<lit>"), Lit{V: IntV(1)}, v("ptainted"), v("ntainted")} {
 		call := Call{Name: "mac", Args: []Expr{a}}
 		progs := [][]Node{
 			{m, O(call)},
